@@ -209,8 +209,10 @@ ares_status_t ares_send_nolock(ares_channel_t *channel, ares_server_t *server,
    */
   if (!ares_htable_szvp_insert(channel->queries_by_qid, query->qid, query)) {
     /* LCOV_EXCL_START: OutOfMemory */
-    callback(arg, ARES_ENOMEM, 0, NULL);
+    /* Unchain and release the query first: the callback may re-enter the
+     * library (e.g. ares_cancel()) and must not find it still listed */
     ares_free_query(query);
+    callback(arg, ARES_ENOMEM, 0, NULL);
     return ARES_ENOMEM;
     /* LCOV_EXCL_STOP */
   }
